@@ -70,7 +70,9 @@ def r8_1(U, rep, tier):
   f = U.func(K + '.inverse')
   s0 = int(os.environ.get('VERIF_SEED', '0') or 0)
   for name, links, vel in CASES:
-    for lh in ((False,) if tier == 'quick' else (False, True)):
+    # left-handed stacks: always for the slide-only stacks (cheap; a frame completed by a cross product has a
+    # handedness), for every case in the thorough tier
+    for lh in ((False, True) if (tier != 'quick' or name.startswith('slide stacks')) else (False,)):
       bad = None
       for trial in range(2 if tier == 'quick' else 5):
         Mdl, okq, okqd, _ = round_trip(U, links, lh, s0 * 10 + trial)
